@@ -1445,6 +1445,8 @@ impl RepDefUnraveler {
     }
 
     pub fn decimate(&mut self, dimension: usize) {
+        // One fixed-size-list slot per `dimension` items from here on
+        self.num_items /= dimension as u64;
         if self.rep_levels.is_some() {
             // If we need to support this then I think we need to walk through the rep def levels to find
             // the spots at which we keep.  E.g. if we have:
